@@ -13,7 +13,13 @@ EXC_OF = {'nondet': 'NonDeterminismError', 'conflict': 'ConflictingTransitionsEr
 
 
 def V(prop, kind, step, **detail):
-    return {'prop': prop, 'kind': kind, 'step': step, 'detail': detail}
+    """a violation; `prop` is one property id, a list of ids, or '*' (concerns every check)"""
+    props = [prop] if isinstance(prop, str) else list(prop)
+    return {'prop': props[0], 'props': props, 'kind': kind, 'step': step, 'detail': detail}
+
+
+def concerns(v, want):
+    return '*' in v['props'] or bool(set(v['props']) & set(want))
 
 
 class Info:
@@ -67,7 +73,7 @@ def check_block_structure(tree, spec, rec, i, out, info, mem):
             exp_sent = [{'cls': e['cls'], 'name': e['name'], 'data': e['data']}
                         for e in sends_from_log({'sid': by_sid, 'tid': by_tid}, frag)]
             if exp_sent != m['sent']:
-                out.append(V('C03', 'sent-events-differ', i, micro=mi, executed=exp_sent,
+                out.append(V(['C03', 'C05'], 'sent-events-differ', i, micro=mi, executed=exp_sent,
                              claimed=m['sent']))
 
     # ---- structure: (T stab*)+ | initial stab* | empty-step
@@ -223,7 +229,10 @@ def check_stab(tree, spec, m, before, i, mi, out, info, mem):
                     return
                 if tree.kind[p] == 'orthogonal':
                     missing = sorted(set(tree.children[p]) - before)
-                    if en == missing and missing:
+                    if missing and sorted(en) == missing:
+                        if en != missing:
+                            out.append(V('C03', 'sibling-entry-order', i, micro=mi, entered=en,
+                                         parent=p))
                         info.key('C02', ('orth', p, tuple(sorted(before))))
                         return
     out.append(V('C02', 'unjustified-stabilisation', i, micro=mi, exited=ex, entered=en,
@@ -284,10 +293,10 @@ def check_step(drive, rec, i, out, info, mem, state):
         ok = any(EXC_OF[a] == exc for a in adm if a in EXC_OF)
         if not ok:
             if exc in EXC_OF.values():
-                out.append(V('C04', 'spurious-error', i, exc=exc, fired=fired_ids,
+                out.append(V(['C04', 'C01'], 'spurious-error', i, exc=exc, fired=fired_ids,
                              admissible=sorted(adm), configuration=sorted(C)))
             else:
-                out.append(V('C04', 'wrong-exception', i, exc=exc, msg=str(rec['exc_obj'])[:300],
+                out.append(V('*', 'wrong-exception', i, exc=exc, msg=str(rec['exc_obj'])[:300],
                              fired=fired_ids, admissible=sorted(adm), configuration=sorted(C),
                              same_source=same_source(fired)))
             return 'abort'
@@ -317,7 +326,7 @@ def check_step(drive, rec, i, out, info, mem, state):
     consume = (E is not None) and not (fired and sel['eventless'])
     if res is None:
         if fired or E is not None:
-            out.append(V('C01', 'none-returned', i, expected_fired=fired_ids,
+            out.append(V(['C01', 'C05'], 'none-returned', i, expected_fired=fired_ids,
                          pending=E['uid'] if E else None))
             return 'abort'
     else:
@@ -334,7 +343,7 @@ def check_step(drive, rec, i, out, info, mem, state):
                 info.label('event consumed by empty step')
         else:
             if ev is not None:
-                out.append(V('C01' if fired else 'C05', 'event-consumed-unexpectedly', i,
+                out.append(V(['C01', 'C05'], 'event-consumed-unexpectedly', i,
                              consumed=ev, eventless=sel['eventless']))
                 return 'abort'
             if not fired:
@@ -391,7 +400,7 @@ def register_sends(drive, rec, T):
             drive.qm.push('int', T + e['data'].get('delay', 0), e['data']['uid'], e['name'])
 
 
-def run_core(case, build=None, epilogue=False):
+def run_core(case, build=None, epilogue=False, want=None):
     """Run the case; returns (violations, info, records)."""
     spec = probes.instrument(case['spec'])
     sc = build(spec) if build else None
@@ -420,7 +429,7 @@ def run_core(case, build=None, epilogue=False):
                 r2 = check_step(d, rec2, i, out, info, mem, state)
                 if r2 == 'abort':
                     break
-        if out:
+        if any(concerns(v, want) for v in out) if want else out:
             break
     if epilogue and not out and d.started:
         run_epilogue(d, i + 1, out, info, mem, state, recs)
@@ -457,9 +466,9 @@ def run_epilogue(d, i, out, info, mem, state, recs):
 def core_oracle(case, prop, build=None, epilogue=False, props=None):
     """standard oracle result for a core property: violations tagged `prop` (or in `props`)"""
     from .cli import sha
-    out, info, recs = run_core(case, build=build, epilogue=epilogue)
     want = set(props or [prop])
-    viol = [v for v in out if v['prop'] in want]
+    out, info, recs = run_core(case, build=build, epilogue=epilogue, want=want)
+    viol = [v for v in out if concerns(v, want)]
     h = sha(case['spec'])
     keys = [sha([h, k]) for k in info.keys.get(prop, ())]
     sample = None
@@ -467,7 +476,7 @@ def core_oracle(case, prop, build=None, epilogue=False, props=None):
         sample = {'spec': compact_spec(case['spec']), 'ops': case['ops'][:12],
                   'n_ops': len(case['ops'])}
     return {'violations': viol, 'labels': info.labels, 'keys': keys, 'sample': sample,
-            'other_props': sorted(set(v['prop'] for v in out) - want)}
+            'other_props': sorted(set(v['prop'] for v in out) - want - {'*'})}
 
 
 def compact_spec(spec):
